@@ -137,6 +137,9 @@ HARNESSES = [
         note="OutputBufferOxide::put_bits replaced by a small-buffer model (checked equal to the real put_bits by k_put_bits_model_equiv, and the real one proved in Verus V-def-bits); CallbackOxide::flush_output by a recording model (real one: K-flushout); <[u16]>::fill by its std contract model; in k_flush_block_finish_static compress_block by its empty-body contract model (ASSUMED: the harness for the real static-table build, k_compress_block_static_empty, did not finish in 50 min and is not registered)")
       for n in ("k_flush_block_markers", "k_flush_block_finish_static")],
     H("k_put_bits_model_equiv", "K-flushmark", ["C02", "C10", "C12"], fns=["OutputBufferOxide::put_bits"], cost=20),
+    # ---- K-huff ----
+    H("k_enforce_max_code_size_kraft", "K-huff", ["C10"], fns=["HuffmanOxide::enforce_max_code_size"], cost=50, timeout=900,
+      strength="B(<= 9 codes, tree depths <= 9, limit 7; complete over every depth histogram of a full binary tree in that range)"),
     # ---- K-dispatch ----
     H("k_dispatch", "K-dispatch", ["C01", "C02", "C09", "C10", "C11", "C12", "C14", "C16"],
       fns=["compress", "compress_inner", "CallbackOxide::new_callback_buf"], cost=60, timeout=900,
